@@ -88,7 +88,9 @@ ImplFb(b) == LET f == Find(b, 8) IN
   ELSE IF f.st # "found" THEN [NoFb EXCEPT !.res = f.st]
   ELSE LET tg == b[f.idx] IN
        [res |-> "ok", present |-> TRUE, addr |-> tg.addr, pitch |-> tg.pitch, w |-> tg.w, h |-> tg.h, bpp |-> tg.bpp,
-        ft |-> tg.ft, rgb |-> IF tg.ft = 1 THEN SubSeq(tg.ci, 1, 6) ELSE <<>>]
+        ft |-> tg.ft, rgb |-> IF tg.ft = 1 \/ (Bug = "RgbUnlessText" /\ tg.ft < 2)
+                              THEN SubSeq(tg.ci \o <<0, 0, 0, 0, 8, 0>>, 1, 6)     \* (short palette: the layout aliases what follows)
+                              ELSE <<>>]
 
 ImplObs(b) == [mm |-> ImplRegions(b), fb |-> ImplFb(b), cmd |-> ImplCmd(b), elf |-> ImplElf(b)]
 
